@@ -391,25 +391,28 @@ impl ParallelPipeline {
     ) -> Result<bool, OperatorError> {
         let num_operators = operators.len();
         let mut current_chunk = chunk;
+        // Output produced together with a stop request still goes down the chain
+        let mut keep_going = true;
 
         for i in start..num_operators {
             let is_last = i == num_operators - 1;
 
             if is_last {
-                return operators[i].push(current_chunk, sink);
+                let more = operators[i].push(current_chunk, sink)?;
+                return Ok(more && keep_going);
             }
 
             let mut collector = ChunkCollector::new();
-            let continue_processing = operators[i].push(current_chunk, &mut collector)?;
+            keep_going &= operators[i].push(current_chunk, &mut collector)?;
 
-            if !continue_processing || collector.is_empty() {
-                return Ok(continue_processing);
+            if collector.is_empty() {
+                return Ok(keep_going);
             }
 
             current_chunk = collector.into_single_chunk();
         }
 
-        sink.consume(current_chunk)
+        Ok(sink.consume(current_chunk)? && keep_going)
     }
 }
 
